@@ -36,7 +36,7 @@ def child_options(value, iv, depth, types, gk, gtypes):
     for t in types:
         for v in child_values(cov):
             if depth > 0 and v:
-                for g in child_lists(v, depth - 1, gk, gtypes, 0, ()):
+                for g in child_lists(v, depth - 1, gk, gtypes, gk if depth > 1 else 0, gtypes):
                     yield (t, v, "", a, b, g)
             else:
                 yield (t, v, "", a, b, [])
